@@ -34,6 +34,13 @@ func main() {
 	if cmd == "setup" {
 		os.Exit(checks.Setup())
 	}
+	if cmd == "replay" {
+		if len(os.Args) < 3 {
+			fmt.Fprintln(os.Stderr, "usage: verif replay <file>")
+			os.Exit(2)
+		}
+		os.Exit(checks.Replay(os.Args[2], seed))
+	}
 	f, ok := checks.Registry[cmd]
 	if !ok {
 		fmt.Fprintln(os.Stderr, "unknown check", cmd)
